@@ -1572,6 +1572,239 @@ class LengthsLayer(Spec):
         return None if n is None or not (1 <= n <= 60) else {"n": n}
 
 
+class StackPartitionLayer(Spec):
+    """StackPartition._layer (concat along the rows, no interleaving): the partitions of the frames are stacked in frame
+    order - output S(f) + i is partition i of frame f (S = prefix sums of the frames' partition counts), passed through
+    when the frame's schema matches the result's, re-concatenated with the result's empty schema otherwise.  Every
+    output below S(F) is defined exactly this way; no partition is skipped, repeated or reordered."""
+
+    file, qualname, props = "dask_expr/_concat.py", "StackPartition._layer", ["C02", "C09", "C06", "C13"]
+    lemmas = ["PrefixSums"]
+    assumptions = [
+        "check_meta(df._meta, self._meta) raises (ValueError / TypeError) iff the two schemas differ: modelled as an uninterpreted predicate of the frame's schema; both outcomes are verified",
+        "every frame has at least one partition (Expr.npartitions >= 1)",
+        "L4-prefix-sums (lemma, proved in lemmas/PrefixSums.lean)",
+    ]
+
+    def make_inputs(self, ex, sym, fr):
+        F = sym.int("F", lo=1)
+        NP = fresh_fun("np", z3.IntSort(), z3.IntSort())
+        NM = fresh_fun("name", z3.IntSort(), z3.IntSort())
+        MT = fresh_fun("meta", z3.IntSort(), z3.IntSort())
+        RAISE = fresh_fun("schema_differs", z3.IntSort(), z3.BoolSort())
+        S = fresh_fun("S", z3.IntSort(), z3.IntSort())
+        w = fresh_fun("w", z3.IntSort(), z3.IntSort())
+        i, m, a, b = z3.Ints("ax_i ax_m ax_a ax_b")
+        sym.pc += [S(0) == 0, z3.ForAll([i], z3.Implies(z3.And(i >= 0, i < F), S(i + 1) == S(i) + NP(i)))]
+        self._lemma = [
+            z3.ForAll([a, b], z3.Implies(z3.And(0 <= a, a <= b, b <= F), S(a) <= S(b))),
+            z3.ForAll([m], z3.Implies(z3.And(0 <= m, m < S(F)), z3.And(0 <= w(m), w(m) < F, S(w(m)) <= m, m < S(w(m) + 1)))),
+        ]
+        self._RAISE = RAISE
+        frames = Seq(F, lambda k: Obj("df", {"npartitions": NP(zint(k)), "_name": NM(zint(k)), "_meta": MT(zint(k))}, cls=("Expr",)), "list")
+        s = Obj(
+            "self",
+            {"_frames": frames, "_name": NameStr("", "self"), "_meta": Opaque("self._meta"), "_kwargs": ex.new_dict(fr), "ignore_order": Opaque("ignore_order"), "axis": Opaque("axis"), "join": Opaque("join")},
+            cls=("StackPartition", "Concat", "Expr"),
+        )
+        fn = lambda f_: (lambda k, f_=f_: f_(zint(k)))
+        return {"self": s, "F": F, "_NP": fn(NP), "_NM": fn(NM), "_MT": fn(MT), "_differs": fn(RAISE), "_S": fn(S), "_w": fn(w), "_lemma": self._lemma, "_meta0": Opaque("meta-stripped")}
+
+    def call(self, ex, fr, name, args, kwargs):
+        if name == "strip_unknown_categories":
+            return Opaque("meta-stripped")
+        return NotImplemented
+
+    def raises(self, ex, fr, call):
+        import ast as _ast
+
+        if isinstance(call.func, _ast.Name) and call.func.id == "check_meta":
+            return self._RAISE(zint(ex.eval(call.args[0], fr)))
+        return NotImplemented
+
+    def requires(self):
+        return {
+            "frames-have-partitions": lambda c, e: c.forall(0, e["F"], lambda k: e["_NP"](k) >= 1),
+            "L4": lambda c, e: c.And(*e["_lemma"]) if c.symbolic else True,
+        }
+
+    invariants = {
+        0: lambda c, e: c.eq(e["ctr"], e["_S"](e["_i"])),
+        1: lambda c, e: c.eq(e["ctr"], e["_S"](e["_outer"][0]) + e["_i"]),
+    }
+
+    def ensures(self):
+        own = lambda c, e: c.attr(e["self"], "_name")
+
+        def k1(c, e, r):
+            W = e.get("_w")
+            return c.forall(0, e["_S"](e["F"]), lambda m: c.defined(r, (own(c, e), m), witness=[W(m), m - e["_S"](W(m))] if W else None))
+
+        def dataflow(c, e, r):
+            S = e["_S"]
+
+            def one(k, v):
+                if len(k) != 2:
+                    return False
+                if len(v) == 2:
+                    f, i = None, v[1]
+                    return c.And(c.eq(k[0], own(c, e)), c.exists(0, e["F"], lambda f: c.And(c.eq(v[0], e["_NM"](f)), i >= 0, i < e["_NP"](f), c.eq(k[1], S(f) + i), c.Not(e["_differs"](e["_MT"](f))))))
+                if len(v) != 4:
+                    return False
+                parts = c.at(v[2], 0)
+                ref = c.at(parts, 1)
+                i = ref[1]
+                return c.And(
+                    c.eq(k[0], own(c, e)), c.eq(v[0], c.fn("apply")), c.eq(v[1], c.fn("methods.concat")), c.eq(c.len(v[2]), 5), c.eq(c.len(parts), 2), c.eq(e["_meta0"], c.at(parts, 0)),
+                    c.eq(c.at(v[2], 1), c.attr(e["self"], "axis")), c.eq(c.at(v[2], 2), c.attr(e["self"], "join")),
+                    c.exists(0, e["F"], lambda f: c.And(c.eq(ref[0], e["_NM"](f)), i >= 0, i < e["_NP"](f), c.eq(k[1], S(f) + i), e["_differs"](e["_MT"](f)))),
+                )
+
+            return c.forall_entries(r, one)
+
+        return {"K1-every-stacked-partition-defined": k1, "dataflow-frames-stacked-in-order": dataflow}
+
+    def concrete_globals(self):
+        import dask_expr._concat as m
+
+        return vars(m)
+
+    def concrete_inputs(self):
+        for counts in ((1,), (2,), (1, 1), (2, 3), (3, 1, 2)):
+            for differ in (False, True):
+                yield {"counts": counts, "differ": differ}
+
+    def concrete_env(self, inputs):
+        return None
+
+    def run_concrete(self, inputs):
+        import pandas as pd
+
+        import dask_expr as dx
+        from dask.dataframe.utils import check_meta, strip_unknown_categories
+        from dask_expr._concat import StackPartition
+
+        frames = []
+        for k, n in enumerate(inputs["counts"]):
+            cols = {"x": range(6), "y": [1.5] * 6}
+            if inputs["differ"] and k % 2 == 1:
+                cols = {"x": range(6)}
+            frames.append(dx.from_pandas(pd.DataFrame(cols, index=range(10 * k, 10 * k + 6)), npartitions=n).expr)
+        plan = dx.concat([dx.new_collection(f) for f in frames]).expr.lower_completely() if len(frames) > 1 else None
+        objs = [x for x in plan.walk() if type(x) is StackPartition] if plan is not None else []
+        if not objs:
+            from vf.pyvc.spec import SkipInput
+
+            raise SkipInput()
+        obj = objs[0]
+        fs = obj._frames
+
+        def differs(mt):
+            try:
+                check_meta(mt, obj._meta)
+                return False
+            except (ValueError, TypeError):
+                return True
+
+        S = [0]
+        for f in fs:
+            S.append(S[-1] + f.npartitions)
+        env = {
+            "self": obj, "F": len(fs), "_NP": lambda k: fs[k].npartitions, "_NM": lambda k: fs[k]._name, "_MT": lambda k: fs[k]._meta, "_differs": differs, "_S": lambda k: S[k], "_lemma": [],
+            "_meta0": _MetaEq(strip_unknown_categories(obj._meta)),
+        }
+        return env, obj._layer()
+
+    def inputs_from_model(self, model, sz, sym):
+        return None
+
+
+class StackInterleavedLayer(Spec):
+    """StackPartitionInterleaved._layer (concat of frames that were aligned to common divisions): output i concatenates
+    partition i of EVERY frame, in frame order."""
+
+    file, qualname, props = "dask_expr/_concat.py", "StackPartitionInterleaved._layer", ["C02", "C09", "C13"]
+
+    def make_inputs(self, ex, sym, fr):
+        F = sym.int("F", lo=1)
+        n = sym.int("npartitions", lo=0)
+        NM = fresh_fun("name", z3.IntSort(), z3.IntSort())
+        frames = Seq(F, lambda k: Obj("df", {"npartitions": n, "_name": NM(zint(k))}, cls=("Expr",)), "list")
+        s = Obj(
+            "self",
+            {"_frames": frames, "_name": NameStr("", "self"), "npartitions": n, "_kwargs": ex.new_dict(fr), "ignore_order": Opaque("ignore_order"), "axis": Opaque("axis"), "join": Opaque("join")},
+            cls=("StackPartitionInterleaved", "StackPartition", "Concat", "Expr"),
+        )
+        return {"self": s, "F": F, "n": n, "_NM": lambda k, NM=NM: NM(zint(k))}
+
+    def ensures(self):
+        own = lambda c, e: c.attr(e["self"], "_name")
+
+        def outputs(c, e, r):
+            def shape(i):
+                return lambda v: len(v) == 4 and c.And(
+                    c.eq(v[0], c.fn("apply")), c.eq(v[1], c.fn("methods.concat")), c.eq(c.len(v[2]), 5),
+                    c.eq(c.len(c.at(v[2], 0)), e["F"]), c.forall(0, e["F"], lambda f: c.eq(c.at(c.at(v[2], 0), f), (e["_NM"](f), i))),
+                    c.eq(c.at(v[2], 1), c.attr(e["self"], "axis")), c.eq(c.at(v[2], 2), c.attr(e["self"], "join")),
+                )
+
+            return c.forall(0, e["n"], lambda i: c.holds_at(r, (own(c, e), i), shape(i)))
+
+        def k3(c, e, r):
+            return c.forall_entries(r, lambda k, v: len(k) == 2 and c.And(c.eq(k[0], own(c, e)), k[1] >= 0, k[1] < e["n"]))
+
+        return {"output-i-concatenates-partition-i-of-every-frame": outputs, "K3-only-own-keys": k3}
+
+    def concrete_globals(self):
+        import dask_expr._concat as m
+
+        return vars(m)
+
+    def concrete_inputs(self):
+        for nf in (2, 3):
+            for n in (1, 3):
+                yield {"nf": nf, "n": n}
+
+    def concrete_env(self, inputs):
+        return None
+
+    def run_concrete(self, inputs):
+        import pandas as pd
+
+        import dask_expr as dx
+        from dask_expr._concat import StackPartitionInterleaved
+
+        frames = [dx.from_pandas(pd.DataFrame({"x": range(12)}, index=range(k, 24 + k, 2)), npartitions=inputs["n"]) for k in range(inputs["nf"])]
+        plan = dx.concat(frames, interleave_partitions=True).expr.lower_completely()
+        objs = [x for x in plan.walk() if type(x) is StackPartitionInterleaved]
+        if not objs:
+            from vf.pyvc.spec import SkipInput
+
+            raise SkipInput()
+        obj = objs[0]
+        fs = obj._frames
+        return {"self": obj, "F": len(fs), "n": obj.npartitions, "_NM": lambda k: fs[k]._name}, obj._layer()
+
+    def inputs_from_model(self, model, sz, sym):
+        return None
+
+
+class _MetaEq:
+    """An empty frame compared by schema (pandas objects have no boolean ==)."""
+
+    def __init__(self, m):
+        self.m = m
+
+    def __eq__(self, other):
+        other = other.m if isinstance(other, _MetaEq) else other
+        try:
+            return list(self.m.columns) == list(other.columns) and list(self.m.dtypes) == list(other.dtypes) and len(other) == 0
+        except Exception:
+            return False
+
+    __hash__ = None
+
+
 def _scenarios():
     out = []
     for how in ("inner", "left", "right", "leftsemi"):
@@ -1585,4 +1818,4 @@ def _scenarios():
     return out
 
 
-SPECS = [CumulativeFinalizeLayer(), FromGraphLayer(), MoreNSplits(), MoreDivisions(), MoreLayer(), SizeLayer(), SimpleShuffleLayer(), DiskShuffleLayer(), TreeReduceLayer(), TaskShuffleTail(), BroadcastDep(), BlockwiseArg(), BlockwiseTask(), EnforceDivisionsTask(), ExprLayer(), LengthsLayer()] + _scenarios()
+SPECS = [CumulativeFinalizeLayer(), FromGraphLayer(), MoreNSplits(), MoreDivisions(), MoreLayer(), SizeLayer(), SimpleShuffleLayer(), DiskShuffleLayer(), TreeReduceLayer(), TaskShuffleTail(), BroadcastDep(), BlockwiseArg(), BlockwiseTask(), EnforceDivisionsTask(), ExprLayer(), LengthsLayer(), StackPartitionLayer(), StackInterleavedLayer()] + _scenarios()
